@@ -150,3 +150,22 @@ fn c03_trunc_zero_is_unbounded() {
     }
     kani::cover!(true, "COVER:reach");
 }
+
+/// Thorough tier: the same grid up to len 10 (limits incl. 9, 10, 11).
+const LIMITS_T: [Option<usize>; 6] = [Some(6), Some(8), Some(9), Some(10), Some(11), Some(1000)];
+
+#[kani::proof]
+#[kani::unwind(13)]
+fn c03_trunc_grid_thorough() {
+    let mut len = 7;
+    while len <= 10 {
+        let mut k = 0;
+        while k < 6 {
+            cell(ScanOrder::Ascending, len, LIMITS_T[k]);
+            cell(ScanOrder::Descending, len, LIMITS_T[k]);
+            k += 1;
+        }
+        len += 1;
+    }
+    kani::cover!(true, "COVER:reach");
+}
